@@ -12,9 +12,14 @@ History syntax (one S-expression per case, parsed by lean/KrroodVerif/Drive/SG.l
     (mkq k c)      q_k = an(entity(let(C, None)))        (mkqd k c o ...)  q_k = an(entity(let(C, [o, ...])))
     (evalq k)      list(q_k.evaluate())                   (dropq k)         drop q_k, gc.collect()
     (query c)      mkq + evalq + dropq on a fresh query object; (queryd c o ...) with an explicit domain
+    (defclass c p) define, at this point of the history, a new dataclass Symbol subclass of class p; it gets class index c
+    (churn o n c)  n instances of class c (labels o .. o+n-1), each created and discarded at once (no gc, no sweep in
+                   between): CPython hands the id() of the discarded instance to the next one
+    (newrole o e)  Chair(o, emp=<instance e>): a Role[Emp] whose role taker is e     (head o g)  chair_o.head_of = org_g
 Objects are only ever named by harness-assigned labels (never ids or reprs).
 
-Class indices: 0 Thing, 1 Org(Thing), 2 Emp(Thing), 3 Mgr(Emp), 4 A(Thing), 5 B(A), 6 C(A), 7 D(B, C).
+Class indices: 0 Thing, 1 Org(Thing), 2 Emp(Thing), 3 Mgr(Emp), 4 A(Thing), 5 B(A), 6 C(A), 7 D(B, C),
+8 Chair(Role[Emp], Thing); indices >= 20 are classes defined by the history itself.
 Field indices: 0 Emp.works_for (WorksFor < MemberOf), 1 Emp.member_of (MemberOf <-> Member), 2 Org.members (Member),
 3 Org.sub_of (SubOf, transitive), 4 Thing.knows, 5 Thing.likes (plain dataclass fields, direct relations only).
 """
@@ -26,8 +31,9 @@ import sys
 import weakref
 from typing import Any, Dict, List, Optional, Tuple
 
-N_CLASSES = 8
-SUBS = {0: [1, 2, 4], 2: [3], 4: [5, 6], 5: [7], 6: [7]}
+N_CLASSES = 9
+SUBS = {0: [1, 2, 4, 8], 2: [3], 4: [5, 6], 5: [7], 6: [7]}
+FIRST_DYNAMIC_CLASS = 20
 # descriptor-managed fields are only written on instances of the class that declares them: for a subclass instance
 # (Mgr) krrood keys the inferred inverse by a different WrappedField (Mgr.member_of vs Emp.member_of) and records the
 # relation twice, on a fresh graph as well (not a matter of history; see build report)
@@ -131,6 +137,18 @@ class C(A):
 class D(B, C):
     pass
 
+@dataclass(eq=False)
+class Chair(Role[Emp], Thing):
+    emp: Emp = field(kw_only=True)
+    head_of: Org = None
+
+    # Role is a dataclass with value equality (hence unhashable); instances are compared by identity here
+    def __eq__(self, other):
+        return self is other
+
+    def __hash__(self):
+        return id(self)
+
 @dataclass
 class Member(PropertyDescriptor, HasInverseProperty):
     @classmethod
@@ -148,6 +166,10 @@ class WorksFor(MemberOf):
     pass
 
 @dataclass
+class HeadOf(WorksFor):
+    pass
+
+@dataclass
 class SubOf(PropertyDescriptor, TransitiveProperty):
     pass
 
@@ -155,16 +177,19 @@ Emp.works_for = WorksFor(Emp, "works_for")
 Emp.member_of = MemberOf(Emp, "member_of")
 Org.members = Member(Org, "members")
 Org.sub_of = SubOf(Org, "sub_of")
+Chair.head_of = HeadOf(Chair, "head_of")
 '''
     # the classes live in a real module so that typing.get_type_hints can resolve the forward references
     import types
 
     mod = types.ModuleType("krrood_verif_sg_schema")
+    from krrood.class_diagrams.utils import Role
+
     mod.__dict__.update(Symbol=Symbol, PropertyDescriptor=PropertyDescriptor, HasInverseProperty=HasInverseProperty,
-                        TransitiveProperty=TransitiveProperty)
+                        TransitiveProperty=TransitiveProperty, Role=Role)
     sys.modules["krrood_verif_sg_schema"] = mod
     exec(compile(src, "krrood_verif_sg_schema", "exec"), mod.__dict__)
-    classes = [mod.Thing, mod.Org, mod.Emp, mod.Mgr, mod.A, mod.B, mod.C, mod.D]
+    classes = [mod.Thing, mod.Org, mod.Emp, mod.Mgr, mod.A, mod.B, mod.C, mod.D, mod.Chair]
     plain = {}
     for fid in (4, 5):
         f = [x for x in fields(mod.Thing) if x.name == FIELD_NAMES[fid]][0]
@@ -275,6 +300,8 @@ class Runner:
         self.outs: List[Tuple[List[Any], List[int]]] = []
         self.raised: Optional[str] = None
         self.auto = 0
+        # class index -> class; the classes a history defines itself live only as long as the runner
+        self.classes: Dict[int, Any] = dict(enumerate(self.S["classes"]))
 
     # -- helpers (every temporary strong reference dies when the helper returns)
     def _alive(self, o: int) -> bool:
@@ -284,11 +311,44 @@ class Runner:
     def op_new(self, o: int, c: int):
         if o in self.wrefs:
             return
-        x = self.S["classes"][c](o)
+        x = self.classes[c](o)
         self.objs[o] = x
         self.wrefs[o] = weakref.ref(x)
         self.cls_of[o] = c
         self.epoch.add(o)
+
+    def op_defclass(self, c: int, parent: int):
+        from dataclasses import dataclass
+        if c in self.classes:
+            return
+        base = self.classes[parent]
+        new = type(f"Dyn{c}", (base,), {"__module__": base.__module__})
+        self.classes[c] = dataclass(eq=False)(new)
+
+    def op_churn(self, o: int, n: int, c: int):
+        cls = self.classes[c]
+        wrefs, cls_of, epoch, ref = self.wrefs, self.cls_of, self.epoch, weakref.ref
+        for i in range(n):
+            x = cls(o + i)
+            wrefs[o + i] = ref(x)
+            cls_of[o + i] = c
+            epoch.add(o + i)
+            del x
+
+    def op_newrole(self, o: int, e: int):
+        if o in self.wrefs or not self._alive(e):
+            return
+        x = self.classes[8](o, emp=self.wrefs[e]())
+        self.objs[o] = x
+        self.wrefs[o] = weakref.ref(x)
+        self.cls_of[o] = 8
+        self.epoch.add(o)
+
+    def op_head(self, o: int, g: int):
+        if not (self._alive(o) and self._alive(g)):
+            return
+        a, b = self.wrefs[o](), self.wrefs[g]()
+        a.head_of = b
 
     def op_drop(self, o: int):
         self.objs.pop(o, None)
@@ -334,7 +394,7 @@ class Runner:
         from krrood.entity_query_language.quantify_entity import an
         if k in self.qinfo:
             return
-        cls = self.S["classes"][c]
+        cls = self.classes[c]
         if dom is None:
             self.qs[k] = an(entity(let(cls, None)))
         else:
@@ -352,7 +412,7 @@ class Runner:
         if explicit:
             exp = sorted(set(l for l in labels if l != "none"))
         else:
-            cls = self.S["classes"][c]
+            cls = self.classes[c]
             exp = []
             for l in sorted(self.epoch):
                 x = self.wrefs[l]()
@@ -373,6 +433,14 @@ class Runner:
             self.op_new(int(op[1]), int(op[2]))
         elif name == "drop":
             self.op_drop(int(op[1]))
+        elif name == "defclass":
+            self.op_defclass(int(op[1]), int(op[2]))
+        elif name == "churn":
+            self.op_churn(int(op[1]), int(op[2]), int(op[3]))
+        elif name == "newrole":
+            self.op_newrole(int(op[1]), int(op[2]))
+        elif name == "head":
+            self.op_head(int(op[1]), int(op[2]))
         elif name == "sweep":
             self.op_sweep()
         elif name == "clear":
@@ -476,6 +544,10 @@ def shift_op(op, d: int):
         return [n, op[1], int(op[2]) + d, int(op[3]) + d]
     if n == "mkq":
         return [n, int(op[1]) + d, op[2]]
+    if n == "churn":
+        return [n, int(op[1]) + d, op[2], op[3]]
+    if n in ("newrole", "head"):
+        return [n, int(op[1]) + d, int(op[2]) + d]
     if n == "mkqd":
         return [n, int(op[1]) + d, op[2]] + [int(x) + d for x in op[3:]]
     if n == "queryd":
@@ -626,6 +698,26 @@ class Gen:
         self.qkeys: List[int] = []
         self.evaluated: set = set()
         self.nextq = 1
+        self.next_class = FIRST_DYNAMIC_CLASS
+        self.parents: Dict[int, int] = {}  # classes defined by the history: class index -> parent
+
+    def defclass(self):
+        """a new subclass (of one of the classes in use, or of one defined earlier) comes into existence"""
+        parent = self.rng.choice([c for c in set(self.classes) | set(self.parents) if c != 8])
+        c = self.next_class
+        self.next_class += 1
+        self.parents[c] = parent
+        self.classes.append(c)
+        return ["defclass", c, parent]
+
+    def churn(self):
+        n = self.rng.randint(2, 8)
+        c = self.rng.choice(self.classes)
+        o = self.next
+        self.next += n
+        for i in range(n):
+            self.known[o + i] = c
+        return ["churn", o, n, c]
 
     def new(self, c=None):
         c = self.rng.choice(self.classes) if c is None else c
@@ -677,7 +769,7 @@ class Gen:
         r = self.rng.random()
         pending = [k for k in self.qkeys if k not in self.evaluated]
         if r < 0.45 or (not self.qkeys and r < 0.7):
-            return ["query", self.rng.choice([0, 0, 1, 2, 2, 3, 4, 5])]
+            return ["query", self.rng.choice([0, 0, 1, 2, 2, 3, 4, 5] + list(self.parents) + list(self.parents.values()))]
         if r < 0.6 and explicit_ok and self.held:
             dom = self.rng.sample(list(self.held), min(len(self.held), self.rng.randint(1, 3)))
             return ["queryd", self.rng.choice([0, 2, 1])] + dom
@@ -685,7 +777,7 @@ class Gen:
             k = self.nextq
             self.nextq += 1
             self.qkeys.append(k)
-            return ["mkq", k, self.rng.choice([0, 1, 2, 2, 3, 4])]
+            return ["mkq", k, self.rng.choice([0, 1, 2, 2, 3, 4] + list(self.parents.values()))]
         if r < 0.93:
             k = self.rng.choice(pending or self.qkeys)
             self.evaluated.add(k)
@@ -696,10 +788,10 @@ class Gen:
         return ["dropq", k]
 
     def history(self, length: int, w_new=3.0, w_drop=2.0, w_rel=2.0, w_sweep=1.0, w_clear=0.3, w_query=2.0,
-                plain=True):
+                plain=True, w_defclass=0.0, w_churn=0.0):
         ops = []
-        kinds = ["new", "drop", "rel", "sweep", "clear", "query"]
-        weights = [w_new, w_drop, w_rel, w_sweep, w_clear, w_query]
+        kinds = ["new", "drop", "rel", "sweep", "clear", "query", "defclass", "churn"]
+        weights = [w_new, w_drop, w_rel, w_sweep, w_clear, w_query, w_defclass, w_churn]
         while len(ops) < length:
             k = self.rng.choices(kinds, weights)[0]
             op = None
@@ -711,6 +803,10 @@ class Gen:
                 op = self.relation(plain)
             elif k == "sweep":
                 op = ["sweep"]
+            elif k == "defclass":
+                op = self.defclass()
+            elif k == "churn":
+                op = self.churn()
             elif k == "clear":
                 # a query object created but not yet evaluated holds a generator over the OLD registry: not modelled
                 if all(q in self.evaluated for q in self.qkeys):
@@ -740,6 +836,12 @@ def enumerate_histories(depth: int, menu, state0):
 
 
 def shrink_ops(ops):
-    """one-step smaller histories: drop one operation (dangling labels are no-ops on both sides)"""
+    """one-step smaller histories: drop one operation (dangling labels are no-ops on both sides; class definitions
+    stay, an instance of an undefined class means nothing)"""
     for i in range(len(ops)):
+        if ops[i][0] == "defclass":
+            continue
         yield ops[:i] + ops[i + 1:]
+    for i in range(len(ops)):
+        if ops[i][0] == "churn" and int(ops[i][2]) > 1:
+            yield ops[:i] + [[ops[i][0], ops[i][1], int(ops[i][2]) - 1, ops[i][3]]] + ops[i + 1:]
